@@ -384,8 +384,17 @@ struct DmHarness : Harness
                         pat += g.chance(0.5) ? "+" : "*";
                 }
                 int pad = g.chance(0.15) ? (int)g.range(1, 3) : 0;
-                if (pat.size() > 255)
+                if (pat.size() > 254)
                     pat = ""; // (cutting could split an escape sequence)
+                if (!pat.empty() && pad == 0 && form != 4 && g.chance(0.06)) {
+                    // a NUL byte in front of a pattern that ends in a non-NUL
+                    // byte: not padding, so nothing is stripped, and no name
+                    // (names are never empty) matches it whichever way the
+                    // byte is read - as a literal or as the end of the pattern
+                    // (alternations are left out: there the two readings
+                    // differ)
+                    pat = std::string(1, '\0') + pat;
+                }
                 p.ops.push_back("sel kind=" + std::to_string(kind) +
                                 " class=a pad=" + std::to_string(pad) +
                                 " pat=" + hex_encode(pat));
@@ -714,6 +723,8 @@ struct DmHarness : Harness
                               "case-insensitive) but returned (%d,%d) '%s'",
                               kind, pat.c_str(), id.driver_id, id.device_id,
                               id.name);
+                        if (!pat.empty() && pat[0] == '\0' && pad == 0)
+                            probe("reach.leading_nul_pattern");
                         if (e)
                             probe("reach.select_found");
                         else
@@ -939,6 +950,7 @@ struct Reg
             "enumerated entry could be described"
         };
         c.reach_probes = { "reach.select_found", "reach.select_none",
+                           "reach.leading_nul_pattern",
                            "fault.library_without_entry_point",
                            "fault.library_init_returns_null",
                            "reach.describe_failed_entry",
